@@ -114,6 +114,13 @@ def main():
     want = (req.get('obligation') or '').rsplit('.', 1)[-1]
     model = req.get('concrete') or {k: v for k, v in (req.get('inputs') or {}).items() if k != 'self'}
     args = {k: from_model(v) for k, v in model.items()}
+    # arguments the model leaves arbitrary although a validator accepted them: use a well-formed value
+    repaired = dict(args)
+    for k in ('tx_hash', 'scripthash'):
+        if k in repaired and not (isinstance(repaired[k], str) and len(repaired[k]) == 64):
+            repaired[k] = 'ab' * 32
+    if 'raw_tx' in repaired and not isinstance(repaired['raw_tx'], str):
+        repaired['raw_tx'] = 'ab'
     s = make_session()
     if '.post.' in (req.get('obligation') or '') and meth == 'block_headers':
         # functional postcondition of blockchain.block.headers, evaluated on the real handler for the
@@ -142,6 +149,19 @@ def main():
         got = None
     except BaseException as e:   # noqa
         got = type(e).__name__
+    if got != want and repaired != args:
+        try:
+            asyncio.run(getattr(make_session(), meth)(**repaired))
+            got2 = None
+        except BaseException as e:   # noqa
+            got2 = type(e).__name__
+        if got2 == want or ('.type.' in (req.get('obligation') or '') and got2 not in ('RPCError', None)):
+            got, args = got2, repaired
+            model = {k: (model.get(k) if repaired[k] == from_model(model.get(k)) else {'j': 'str', 'v': repaired[k]})
+                     for k in repaired}
+    protocol = ('RPCError', 'ReplyAndDisconnect', 'ExcessiveSessionCostError', None)
+    if '.type.' in (req.get('obligation') or '') and got not in protocol:
+        want = got      # an argument of the wrong Python type reached a callee: any internal exception reproduces it
     if got == want:
         print(json.dumps({'reproduced': True, 'input': model,
                           'detail': f'{meth}({", ".join(f"{k}={v!r}" for k, v in args.items())}) raises {got}'}))
